@@ -19,7 +19,13 @@ pub fn run_fault_free(id: &'static str, plan: &ClientPlan, want_trace: bool) -> 
     let faulty = !plan.faults.is_empty()
         || plan.connects.iter().any(|c| !matches!(c, client::ConnectSpec::Ok | client::ConnectSpec::DelayMs(_)))
         || crate::c09::serial_mismatch(plan);
-    let j = if faulty { judge_under_faults(plan, &run) } else { judge_fault_free(plan, &run) };
+    let j = if plan.pt.registration_currency.map(|c| c != plan.cfg.currency).unwrap_or(false) {
+        crate::model::judge_currency_only(plan, &run)
+    } else if faulty {
+        judge_under_faults(plan, &run)
+    } else {
+        judge_fault_free(plan, &run)
+    };
     for (prop, v) in j.v {
         if prop == id || prop == "*" {
             out.violations.push(v);
@@ -198,29 +204,46 @@ pub fn random_cleanup(rng: &mut Rng) -> CleanupSpec {
 /// card, pacing, the pause inside the packet, schedule noise - must in sum stay well below the client's
 /// per-packet time-out (card reading: read_card_timeout + 2 s; everything else: 45 s leaves room for a
 /// shorter constant than today's 60 s).
+/// Slowness that is no fault must stay below what *any* sensible time-out policy tolerates - the
+/// properties fix no time-out values, so a client with 30 s per packet, or with a deadline for a whole
+/// card reading, is as good as the pinned one (false-alarm review 2): outside card reading every packet
+/// comes within 10 s of the previous one; a card reading as a whole (all its packets, every pause) is
+/// over within the configured `read_card_timeout` - the time the terminal itself waits for a card.
 pub fn limit_delays(plan: &mut ClientPlan) {
-    let card_delay = plan
-        .ops
-        .iter()
-        .filter_map(|o| match o {
-            OpSpec::ReadCard { card } => Some(card.delay_ms),
-            _ => None,
-        })
-        .max();
-    let limit: u64 = match card_delay {
-        Some(_) => (plan.cfg.read_card_timeout as u64 + 2) * 1000 * 3 / 4,
-        None => 40_000,
+    const PER_PACKET_MS: u64 = 10_000;
+    let per_packet = |p: &ClientPlan| p.pt.pace_ms as u64 + p.pt.frame_pause.map(|f| f.1 as u64).unwrap_or(0) + p.max_delay_ms as u64;
+    if per_packet(plan) > PER_PACKET_MS {
+        plan.pt.pace_ms = plan.pt.pace_ms.min(5_000);
+    }
+    if per_packet(plan) > PER_PACKET_MS {
+        plan.pt.frame_pause = plan.pt.frame_pause.map(|f| (f.0, f.1.min(150), f.2));
+        plan.max_delay_ms = plan.max_delay_ms.min(900);
+    }
+    // card readings: (non-final packets + final packet) x per-packet slowness + the card's own delay
+    let budget = plan.cfg.read_card_timeout as u64 * 1000;
+    let total = |p: &ClientPlan| {
+        p.ops
+            .iter()
+            .filter_map(|o| match o {
+                OpSpec::ReadCard { card } => Some((card.pre as u64 + 1) * per_packet(p) + card.delay_ms),
+                _ => None,
+            })
+            .max()
+            .unwrap_or(0)
     };
-    let sum = |p: &ClientPlan| card_delay.unwrap_or(0) + p.pt.pace_ms as u64 + p.pt.frame_pause.map(|f| f.1 as u64).unwrap_or(0) + p.max_delay_ms as u64;
-    if sum(plan) > limit {
+    if total(plan) >= budget.max(1) {
         plan.pt.frame_pause = plan.pt.frame_pause.map(|f| (f.0, f.1.min(100), f.2));
     }
-    if sum(plan) > limit {
+    if total(plan) >= budget.max(1) {
         plan.pt.pace_ms = 0;
     }
-    if sum(plan) > limit {
+    if total(plan) >= budget.max(1) {
         plan.pt.frame_pause = None;
         plan.max_delay_ms = plan.max_delay_ms.min(50);
+    }
+    if total(plan) >= budget.max(1) {
+        plan.max_delay_ms = 0;
+        plan.delay_pct = 0;
     }
 }
 
@@ -239,11 +262,11 @@ pub fn random_transport(plan: &mut ClientPlan, rng: &mut Rng) {
     // has its own, shorter one: only histories that read no card are slowed down that much)
     let reads_card = plan.ops.iter().any(|o| matches!(o, OpSpec::ReadCard { .. }));
     if rng.pct(10) {
-        plan.pt.pace_ms = if reads_card { *rng.pick(&[500u32, 4_000]) } else { *rng.pick(&[4_000u32, 20_000, 40_000]) };
+        plan.pt.pace_ms = if reads_card { *rng.pick(&[500u32, 2_000]) } else { *rng.pick(&[2_000u32, 5_000, 9_000]) };
     }
     // every packet arrives in two pieces with a pause in between
     if rng.pct(10) {
-        plan.pt.frame_pause = Some((*rng.pick(&[1u8, 2, 3, 4, 5]), *rng.pick(&[100u32, 800, 3_000]), rng.below(3) as u8));
+        plan.pt.frame_pause = Some((*rng.pick(&[1u8, 2, 3, 4, 5]), *rng.pick(&[50u32, 100, 150]), rng.below(3) as u8));
     }
     plan.pt.status_codes = if rng.pct(20) { 4 + rng.below(256) as u16 } else { rng.below(4) as u16 };
     plan.pt.script_order = if rng.pct(35) { 1 + rng.below(3) as u8 } else { 0 };
@@ -1013,6 +1036,26 @@ impl Check for ClientCheck {
                     p.pt.status_currency = own;
                     p
                 }));
+                // the terminal's registration completion names a currency of its own (on the first connection,
+                // or only on the one after an idle close): requests keep the configured currency
+                fams.push(Family::new("terminal_registers_with_another_currency", 3 * 2 * 2, true, |i, _| {
+                    let own = [826u16, 840, 752][(i % 3) as usize];
+                    let mut p = ClientPlan::plain(vec![
+                        OpSpec::Begin { token: "A".into(), res: ResOutcome::success() },
+                        if (i / 3) % 2 == 0 {
+                            OpSpec::Commit { token: "A".into(), amount: 900, rev: RevOutcome::success(), cleanup: CleanupSpec::plain() }
+                        } else {
+                            OpSpec::Cancel { token: "A".into(), rev: RevOutcome::success(), cleanup: CleanupSpec::plain() }
+                        },
+                    ]);
+                    p.cfg.currency = 978;
+                    p.pt.registration_currency = Some(own);
+                    p.pt.status_currency = Some(own);
+                    if i / 6 == 1 {
+                        p.faults = vec![FaultSpec { conn: 0, point: 12, kind: FaultKind::CloseIdle }];
+                    }
+                    p
+                }));
                 // a commit / cancel the terminal refuses, naming another receipt in its abort (2.10.1 form);
                 // the caller tries again: the token was closed by the first attempt, whatever the abort said
                 fams.push(Family::new("refused_reversal_names_another_receipt_then_retry", 2 * 2 * 3, true, |i, _| {
@@ -1115,7 +1158,7 @@ impl Check for ClientCheck {
                     p.sched = client::default_sched_variants(i, rng.next_u64());
                     p.pt.bmp_reversed = i % 2 == 1;
                     // the identity of a card does not depend on the configured time-out (incl. its extremes)
-                    p.cfg.read_card_timeout = [15u8, 4, 254, 255, 3][(i % 5) as usize]; // all above the 3 s the slowest presentation takes
+                    p.cfg.read_card_timeout = [15u8, 5, 254, 255, 4][(i % 5) as usize]; // all above the 3 s the slowest presentation takes
                     p
                 }));
                 // the same grid with a connection failure between / inside the presentations
@@ -1185,7 +1228,7 @@ impl Check for ClientCheck {
                             OpSpec::ReadCard { card: CardOutcome { pre: (i % 2) as u8, kind: c.clone(), delay_ms: 0 } },
                             OpSpec::ReadCard { card: CardOutcome { pre: 0, kind: c, delay_ms: 0 } },
                         ]);
-                        let (rc, pace) = [(1u8, 2_500u32), (0, 1_500), (15, 7_000)][(i / n) as usize];
+                        let (rc, pace) = [(1u8, 2_500u32), (0, 1_500), (15, 2_500)][(i / n) as usize];
                         p.cfg.read_card_timeout = rc;
                         p.pt.handshake_pace_ms = pace;
                         p.faults = vec![FaultSpec { conn: 0, point: 12, kind: FaultKind::CloseIdle }];
@@ -1240,6 +1283,8 @@ impl Check for ClientCheck {
                         }
                     }
                     let mut p = ClientPlan::plain(ops);
+                    // (the longest presentation above: 9 s for the card itself)
+                    p.cfg.read_card_timeout = *rng.pick(&[15u8, 15, 12, 30, 255]);
                     random_transport(&mut p, rng);
                     p
                 }));
@@ -1335,7 +1380,8 @@ impl Check for ClientCheck {
                         vec![b("A"), b("B"), co("B", cl(PendingSpec::NoneFfff)), ca("A", cl(PendingSpec::Dangling))],
                     ];
                     fams.push(fault_at_every_point("connection_closed_between_exchanges_at_every_point", wl.clone(), vec![FaultKind::CloseIdle], 2));
-                    // ... or answers one command with a negative acknowledgement (busy): same liveness
+                    // a command answered once with a negative acknowledgement (busy): results-only rules (a client
+                    // may take the refusal as final - nothing in C19 says "repeat until accepted")
                     fams.push(fault_at_every_point("command_refused_once_at_every_point", wl, vec![FaultKind::Nack(0x9c), FaultKind::Nack(0x83)], 2));
                 }
                 let depth = 3;
@@ -1416,10 +1462,11 @@ impl Check for ClientCheck {
                     p.cfg.read_card_timeout = if i / 256 == 4 && i % 2 == 1 { 254 } else { tau };
                     p
                 }));
-                // the abort packet arrives in two pieces (after 1, 2, 3 bytes) with 0.8 s / 3 s in between
+                // the abort packet arrives in two pieces (after 1, 2, 3 bytes) with 50 / 150 ms in between
+                // (below the specification's inter-character time-out of 200 ms: nobody may give up there)
                 fams.push(Family::new("abort_packet_in_two_pieces", 9 * 3 * 2 * 4, true, |i, _| {
                     let code = [0x6fu8, 0x64, 0xb4, 0x05][(i % 4) as usize];
-                    let ms = [800u32, 3_000][((i / 4) % 2) as usize];
+                    let ms = [50u32, 150][((i / 4) % 2) as usize];
                     let n = 1 + ((i / 8) % 3) as u8;
                     let mut p = abort_exchange_plan(i / 24, code, 1, 0);
                     p.pt.frame_pause = Some((n, ms, 1));
